@@ -904,6 +904,55 @@ def _inst_hook(world, lname, hook):
     return fn
 
 
+def _late_setup(world, per_test, owner):
+    def fn(cls):
+        lname = cls.__name__
+        own = 'setUp' in ((world.layer_specs.get(lname) or {}).get('hooks')
+                          or {})
+        _run_layer_hook(world, lname, 'setUp', inherited=not own)
+        if owner and cls is owner[0]:
+            for h in per_test:
+                setattr(cls, h, _class_hook(world, h))
+            emit('layer.late_hooks', layer=lname, on=True)
+    fn.__name__ = 'setUp'
+    return classmethod(fn)
+
+
+def _late_teardown(world, per_test, owner):
+    def fn(cls):
+        lname = cls.__name__
+        own = 'tearDown' in ((world.layer_specs.get(lname) or {})
+                             .get('hooks') or {})
+        try:
+            _run_layer_hook(world, lname, 'tearDown', inherited=not own)
+        finally:
+            if owner and cls is owner[0]:
+                for h in per_test:
+                    if h in cls.__dict__:
+                        delattr(cls, h)
+    fn.__name__ = 'tearDown'
+    return classmethod(fn)
+
+
+def _late_inst_hooks(world, layer, lname, per_test):
+    def set_up():
+        _run_layer_hook(world, lname, 'setUp')
+        for h in per_test:
+            setattr(layer, h, _inst_hook(world, lname, h))
+        emit('layer.late_hooks', layer=lname, on=True)
+
+    def tear_down():
+        try:
+            _run_layer_hook(world, lname, 'tearDown')
+        finally:
+            for h in per_test:
+                layer.__dict__.pop(h, None)
+    set_up.__name__ = 'setUp'
+    tear_down.__name__ = 'tearDown'
+    layer.setUp = set_up
+    layer.tearDown = tear_down
+
+
 def _layer_factory(name, bases, d):
     class Layer(*bases):
         pass
@@ -924,10 +973,22 @@ def build_layers(modname):
         bases = [built[b] if b in built else _special_layer(b)
                  for b in ls.get('bases', [])]
         hooks = (world.layer_specs[name].get('hooks') or {})
+        # a layer that gets its per-test hooks when it is set up (bound
+        # methods of the resource it opens: cls.testSetUp = conn.begin) and
+        # loses them when it is torn down
+        per_test = [h for h in ('testSetUp', 'testTearDown') if h in hooks]
+        late = bool(ls.get('late_hooks') and per_test and
+                    'setUp' in hooks and 'tearDown' in hooks)
         if ls.get('kind', 'class') == 'class':
             d = {'__module__': modname}
             for h in hooks:
+                if late and h in per_test:
+                    continue
                 d[h] = _class_hook(world, h)
+            if late:
+                owner = []
+                d['setUp'] = _late_setup(world, per_test, owner)
+                d['tearDown'] = _late_teardown(world, per_test, owner)
             if ls.get('factory'):
                 # layer classes out of a factory: one class statement inside
                 # a function, renamed afterwards - they all share their
@@ -935,11 +996,17 @@ def build_layers(modname):
                 layer = _layer_factory(name, tuple(bases) or (object,), d)
             else:
                 layer = type(name, tuple(bases) or (object,), d)
+            if late:
+                owner.append(layer)
         else:
             layer = (FalsyInstLayer if ls.get('falsy') else InstLayer)(
                 name, modname, bases)
             for h in hooks:
+                if late and h in per_test:
+                    continue
                 setattr(layer, h, _inst_hook(world, name, h))
+            if late:
+                _late_inst_hooks(world, layer, name, per_test)
         built[name] = layer
         ns[name] = layer
     world.layers = built
